@@ -39,7 +39,8 @@ CLAIMS.update({
  'C04': ("proof", "Proof, partial. Proved for all w and values: the function-entry stack guard passes iff the frame fits (no wrap), the "
          "unsigned index check is the two-sided bounds check, sane lengths cannot wrap, write(int) touches only its registers and digit "
          "buffer; the digit buffer the compiler accounts for suffices for every word size (2^100000 < 10^30103). For the sequential integer "
-         "core the stack check is proved exact end to end (core_stack_check_exact + core_semantic_preservation: fits => every access in "
+         "core (incl. user functions and recursion) the stack check is proved exact end to end, at the entry point and at every call at any depth "
+         "(core_stack_check_exact, core_call_stack_check + core_semantic_preservation: fits => every access in "
          "frame, else stack_overflow first). Beyond the core the whole-program invariant is validated by the Lean access monitor at the "
          "minimal succeeding stack size S+8,S+1,S,S-1.",
          "machine-checked proof (Lean 4) of guard templates and library footprint + monitored execution at tight stacks", "6 C04"),
